@@ -7,7 +7,7 @@ EXPLANATION = (
     "Tag variant that nests tags - derived from the type definition through Box/Vec/FuncTag - and recurses on every nested "
     "field; (R2) every UnionFind::union call in unify() is dominated by the false edge of an occurs() check; (R3) union() "
     "always re-parents the operand proven Tag::Var; (R4) bindings are zipped only on the equal-length edge; (R5) "
-    "declarations are pre-tagged before the traversal. Does not decide most-general-unifier correctness or "
+    "declarations are pre-tagged before the traversal; (R6) a module's tag variables are named by its own locator; (R7) identical tags are short-circuited before occurs() is consulted. Does not decide most-general-unifier correctness or "
     "order/renaming independence of the verdict, which compare results of runs.")
 ASSUMPTIONS = ["union-find path walking terminates because parents[] only ever links a variable class under another representative (R2,R3)"]
 TECHNIQUE = "static analysis: ADT walk + HIR pattern/recursion coverage + MIR dominance"
@@ -18,4 +18,6 @@ def run(c, facts):
     c.run(lambda c: I.occurs_before_union(c, facts, c.rule('C07.R2', 'OCCURS-BEFORE-UNION with polarity')))
     c.run(lambda c: I.var_first(c, facts, c.rule('C07.R3', 'VAR-FIRST: union(var, other)')))
     c.run(lambda c: I.arity(c, facts, c.rule('C07.R4', 'ARITY: zip on the equal-length edge')))
+    c.run(lambda c: I.var_namespace(c, facts, c.rule('C07.R6', 'VAR-NAMESPACE: tag variables are named by (module locator, counter)')))
+    c.run(lambda c: I.identity_first(c, facts, c.rule('C07.R7', 'IDENTITY-FIRST: identical tags unify before the variable branches')))
     c.run(lambda c: I.pre_tag(c, facts, c.rule('C07.R5', 'PRE-TAG: declarations tagged before traversal')))
